@@ -10,6 +10,7 @@ constant tables.  Together they give, for every input t:
     y^2 = g(x) *as a consequence of the path condition*, x0 tried first, and the sign of
     y fixed with sgn0(y_affine) ^ sgn0(t).
 """
+import roles
 import construles as C
 import exp
 import mathlib as M
@@ -303,7 +304,7 @@ def rule_helper_polys(fx, rep):
     homogenised.  Sums are kept as sums of monomials; products of two sums are interned, never expanded."""
     from exp import Sum
     sswu = C.check_sswu_consts(fx, core_report_sink())
-    helper = 'bls12_381::osswu_map::osswu_help'
+    helper = roles.roles(fx).get('sswu_helper')
     paths = set()
     for g_, v in sswu.items():
         paths.add(callee(v[3]).get('res') or callee(v[3])['def'])
